@@ -152,8 +152,14 @@ def mk_track(t):
         i = MidiInstrument()
         i.instrument_nr = instr
         tr.instrument = i
+    # a bar that occurs again in the same track is added as THE SAME Bar object (a user repeating a bar does exactly that):
+    # every exporter must treat it as it treats an equal copy
+    made = {}
     for b in bars:
-        tr.add_bar(mk_bar(b))
+        k = repr(b)
+        if k not in made:
+            made[k] = mk_bar(b)
+        tr.add_bar(made[k])
     return tr
 
 def mk_composition(ts):
